@@ -633,9 +633,9 @@ def _run(en, op, **kw):
 
 
 def case_crash(acc, name, start, k, variant=None):
-    """variant: None (process crash) | ('zero'|'missing', relpath) power-loss damage of one unsynced file."""
-    fs = start.endswith("+fsync")
-    en = crashfs.Enumerator(lambda r: build_repo(r, start.startswith("packed"), fsync=fs))
+    """variant: None (process crash) | ('zero'|'missing', relpath) power-loss damage of one unsynced file |
+    ('torn', m): the write the kill lands in has written its first m bytes."""
+    en = crashfs.Enumerator(_setup_for(start))
     try:
         base = _baseline(en, name)
         _crash_one(acc, en, name, start, k, base, variant)
@@ -668,13 +668,19 @@ def _crash_one(acc, en, name, start, k, base, variant=None):
         if outcome[0] != "ok":
             raise HarnessError("crash-free run of %s failed: %r" % (name, outcome))
         where = "%s [%s] completed" % (name, start)
+    elif variant is not None and variant[0] == "torn":
+        root, ctl, outcome = _run(en, op, crash_at=k, torn=variant[1])
+        if outcome[0] != "crash":
+            raise HarnessError("crash point %d of %s not reached (outcome %r)" % (k, name, outcome))
+        where = "%s [%s] killed during step %d/%d (%s %s): only the first %d of %d bytes were written" % (
+            name, start, k, len(steps), steps[k][0], steps[k][1], variant[1], steps[k][2])
     else:
         root, ctl, outcome = _run(en, op, crash_at=k)
         if outcome[0] != "crash":
             raise HarnessError("crash point %d of %s not reached (outcome %r)" % (k, name, outcome))
         where = "%s [%s] killed before step %d/%d (%s %s)" % (name, start, k, len(steps), steps[k][0], steps[k][1])
     dirty = sorted(r for r, n in ctl.dirty.items() if os.path.lexists(os.path.join(root, r)))
-    if variant is not None:
+    if variant is not None and variant[0] != "torn":
         kind, rel = variant
         p = os.path.join(root, rel)
         if not os.path.lexists(p):
@@ -693,11 +699,11 @@ def _crash_one(acc, en, name, start, k, base, variant=None):
         if p.returncode != 0:
             acc.violation("crash:%s:git-fsck-fails" % name, "%s: git fsck exit %d: %s" % (where, p.returncode, (p.stderr + p.stdout)[-300:].decode("utf-8", "replace").replace(root, "<root>")),
                           rp(case_crash, name, start, k, variant))
-    acc.count("crash_points" if variant is None else "power_loss_variants")
+    acc.count("crash_points" if variant is None else "torn_write_variants" if variant[0] == "torn" else "power_loss_variants")
     acc.outcome("%s:%s" % (name, "same-as-old" if _same(now, old) else "same-as-new" if _same(now, new) else "intermediate"))
     for key, summary in judge(name, start, old, new, now, root, where):
         if variant is not None:
-            key += ":power-loss"
+            key += ":torn-write" if variant[0] == "torn" else ":power-loss"
         acc.violation(key, summary, rp(case_crash, name, start, k, variant))
     return dirty
 
@@ -706,13 +712,50 @@ def _same(a, b):
     return a["refs"] == b["refs"] and set(a["objects"]) == set(b["objects"]) and a["index"] == b["index"] and a["config"] == b["config"]
 
 
+def _setup_for(start):
+    """start = '<loose|packed>[+fsync][ after <operation>]' (the optional operation has completed before the crash test)."""
+    first = None
+    if " after " in start:
+        start, first = start.split(" after ", 1)
+    fs = start.endswith("+fsync")
+
+    def setup(r):
+        build_repo(r, start.startswith("packed"), fsync=fs)
+        if first is not None:
+            tempfile._name_sequence = _DetNames()
+            OPS[first](r)
+
+    return setup
+
+
 def work(task):
     name, start, power = task
     acc = Acc()
-    fs = start.endswith("+fsync")
-    en = crashfs.Enumerator(lambda r: build_repo(r, start.startswith("packed"), fsync=fs))
     try:
-        base = _baseline(en, name)
+        en = crashfs.Enumerator(_setup_for(start))
+    except Exception as e:
+        raise HarnessError("setup %r failed: %r" % (start, e))
+    try:
+        try:
+            base = _baseline(en, name)
+        except HarnessError as e:
+            if " after " in start and "crash-free run of" in str(e):
+                acc.outcome("history:second-operation-not-applicable")
+                return acc
+            raise
+        if " after " in start and os.environ.get("VERIF_C09_GIT") == "1":
+            # the state the first operation left must itself be acceptable to git: otherwise the crash is not to blame
+            p0 = git(["fsck", "--no-dangling", "--no-progress"], cwd=os.path.join(en.fresh(), "wt"), check=False)
+            if p0.returncode != 0:
+                first = start.split(" after ", 1)[1]
+                acc.violation("history:git-fsck-rejects-the-state-left-by:%s" % first, "%s (completed, no crash): git fsck exit %d: %s" % (
+                    first, p0.returncode, (p0.stderr + p0.stdout)[-300:].decode("utf-8", "replace")), None)
+                return acc
+        if " after " in start:
+            acc.count("two_operation_histories")
+            if _same(base[0], base[1]):
+                acc.outcome("history:second-operation-changes-nothing")
+                return acc
         steps = base[2]
         acc.count("scenarios")
         acc.sample({"scenario": name, "start": start, "mutating_steps": len(steps), "first_steps": [list(s) for s in steps[:8]]}, cap=4)
@@ -720,6 +763,10 @@ def work(task):
             raise HarnessError("operation %s changed nothing observable: vacuous" % name)
         for k in range(len(steps) + (1 if power else 0)):
             dirty = _crash_one(acc, en, name, start, k, base)
+            if k < len(steps) and steps[k][0] == "write" and (steps[k][2] or 0) > 1:
+                # the kill lands inside the write(2): a prefix of it has reached the file
+                for m in sorted({1, steps[k][2] // 2}):
+                    _crash_one(acc, en, name, start, k, base, ("torn", m))
             if power:
                 for rel in dirty:
                     for kind in ("zero", "missing"):
@@ -739,11 +786,15 @@ def run(ctx):
     pl = ["add_object x3", "WorkTree.commit", "add_objects", "add_thin_pack"] if q else ["add_object x3", "WorkTree.commit", "add_objects", "add_thin_pack",
                                                                        "pack_loose_objects", "repack", "local push (receive)", "porcelain.add"]
     tasks += [(n, "loose+fsync", True) for n in pl]
+    if not q:
+        # histories of two operations: the first has completed, the process is killed inside the second
+        firsts = [n for n in sorted(OPS) if n not in ("porcelain.fetch",)]
+        tasks += [(n2, "%s after %s" % (s, n1), False) for n1 in firsts for n2 in sorted(OPS) for s in ("loose", "packed")]
     pmap_acc(work, ctx.order(tasks), ctx.acc, jobs=ctx.jobs)
     n = ctx.acc.n
     ctx.level = "fault_enumeration"
     ctx.coverage.update(
-        evaluations=n.get("crash_points", 0) + n.get("power_loss_variants", 0),
+        evaluations=n.get("crash_points", 0) + n.get("power_loss_variants", 0) + n.get("torn_write_variants", 0),
         distinct_nontrivial=len(ctx.acc.classes),
         rule="E2: for each of %d operations x {loose, packed} start states, the process is killed before each mutating system call "
              "(open-for-write, raw write(2), fsync, rename/replace, unlink, mkdir, rmdir, chmod, utime, link) in turn; buffered data is lost, "
@@ -754,9 +805,11 @@ def run(ctx):
         scenarios=n.get("scenarios", 0),
         crash_points=n.get("crash_points", 0),
         power_loss_variants=n.get("power_loss_variants", 0),
+        torn_write_variants=n.get("torn_write_variants", 0),
     )
     ctx.assumptions += [
-        "process-crash model: a system call either happened completely or not at all; no torn write(2)",
+        "process-crash model: a system call either happened completely or not at all, except that the write(2) the kill lands in "
+        "may have written a prefix (its first byte / its first half are enumerated)",
         "power-loss model: metadata operations persist in order; data not fsynced may be missing or zero-length, one file at a time",
         "leftover lock/temp files that merely block later writers are a liveness matter outside the statement",
         "tempfile names made deterministic (tempfile._name_sequence) so that step numbering is stable",
